@@ -93,7 +93,9 @@ TrapDefs == <<
   \* 14 two callers blocked behind one store
   Cardinality({p \in Clients : pc[p] = "blocked"}) >= 2,
   \* 15 eviction snapshot taken, then one of its candidates is overwritten in flight
-  jan.phase = "evicting" /\ (\E k \in jan.cands : entries[k].present /\ entries[k].ver # jan.pre[k].ver)
+  jan.phase = "evicting" /\ (\E k \in jan.cands : entries[k].present /\ entries[k].ver # jan.pre[k].ver),
+  \* 16 lookup of a fresh entry waiting behind a store on its shard (the entry may expire while it waits)
+  \E p \in Clients : pc[p] = "blocked" /\ pend[p][1] = "get" /\ entries[pend[p][2]].present /\ ~entries[pend[p][2]].exp
 >>
 NTraps == Len(TrapDefs)
 Trap(i) == TrapDefs[i] => ((TLCGet(i) >= TrapCap) \/ (TLCSet(i, TLCGet(i) + 1) /\ PrintT(<<"TRAP", i, ToJson(hist)>>)))
